@@ -318,12 +318,13 @@ class _Selector:
             return all(t.done for t in ds.threads if t is not me and not t.daemon_like and t.started)
 
         if timeout is None:
-            # nothing ready, no timer: the loop's idle point
-            if loop._on_idle is not None:
+            # no timer.  The loop is IDLE if also nothing is ready and no wake-up is pending (a handle may have been
+            # appended, even announced, since _run_once computed the timeout: then select() returns at once)
+            if not loop._woken and not loop._ready and loop._on_idle is not None:
                 loop._on_idle()
             ds.block(lambda: loop._woken or loop._stopping or others_done(), None, what="select")
             if not loop._woken and not loop._stopping and others_done():
-                if loop.pending() and loop._on_idle is not None:
+                if loop._ready and loop._on_idle is not None:
                     loop._on_idle()          # asleep with handles nobody announced, and nobody left to do it
                 loop.stop()
         else:
@@ -386,7 +387,7 @@ def patches():
 TRACE_INVS = ["OnLoopThread", "NotEarly", "NoLostAction"]
 DESIGN_INVS = ["TypeOK", "D_OnLoopThread", "D_NotEarly", "D_NoStart", "D_NoLost", "D_AtMostOnce", "D_EndOK", "D_NoMissedWakeup",
                "D_CallerInsideAnotherLoop"]
-TRACE_CONSTS = dict(Items={1, 2, 3})
+TRACE_CONSTS = dict(Items={1, 2, 3}, Foreign={"F", "G"})
 UNIT = 1000          # trace times are in 1/1000 of a scenario tick (the monitor is unit-agnostic)
 VARIANTS_ALL = ("own", "caller", "early", "lose", "nowake", "inline")
 
@@ -420,6 +421,8 @@ def make_run_one(sc: Dict[str, Any], form: str = "rel", wide: bool = False):
                 o, i, w = op["op"], op["i"], op["w"]
                 if o == "go":
                     state["go"] = True
+                elif o == "up":
+                    ds.block(lambda: loop.is_running() or state.get("stopped"), what="up")
                 elif o == "sleep":
                     if w > 0:
                         shims.sleep(float(w))
@@ -469,12 +472,13 @@ def make_run_one(sc: Dict[str, Any], form: str = "rel", wide: bool = False):
                 ds.block(lambda: state["go"], what="go")
                 log("ls")
                 loop.run_forever()
+                state["stopped"] = True
                 log("lx")
 
             def fmain(name):
                 def script():
                     if name != "F":
-                        ds.block(lambda: state["go"], what="go")       # the other foreign threads exist once F said go
+                        ds.block(lambda: loop.is_running() or state.get("stopped"), what="up")   # the others start once the loop runs
                     for op in sc["f"][name]:
                         do(op)
 
@@ -640,6 +644,28 @@ def _cfg(n: int, family: str, variants=("own",), foreign=("F",), ownsets="NoOwn"
     return tlc.cfg_text(consts, **kw).replace("= <-", "<- ")
 
 
+def export_and_controls(n: int, family: str, foreign=("F",), ownsets="OwnExportC", timeout: int = 900) -> Tuple[List[Dict[str, Any]], Any]:
+    """One TLC run: (i) the scenario family the replayer performs, as TLC enumerates it in Init for variant "own" (one
+    exported line per initial state, no steps: action constraint NoOwnSteps); (ii) the negative controls: every fault
+    variant is explored until the invariant it was built to break fails (constraint ControlPrune sets a register), the
+    postcondition ControlsRefuted requires all of them.  One worker (registers are per worker; export lines)."""
+    cfg = _cfg(n, family, variants=VARIANTS_ALL, foreign=foreign, ownsets=ownsets, invariants=DESIGN_INVS + ["ExportOwn"],
+               constraints=["ControlPrune"], action_constraints=["NoOwnSteps"], postcondition="ControlsRefuted", deadlock=False)
+    res = tlc.run("AsyncIOSchedMC", cfg, workers=1, timeout=timeout, allow_violation=True)
+    if not res.ok:
+        raise tlc.TLCFailure(f"export + negative controls: TLC reports {res.violated}\n" + "\n".join(res.raw.splitlines()[-60:]))
+    if "NOT REFUTED" in res.raw:
+        raise tlc.TLCFailure("a negative control was NOT refuted (an invariant of the model went vacuous):\n" +
+                             "\n".join(l for l in res.raw.splitlines() if "NOT REFUTED" in l))
+    seen, scs = set(), []
+    for ln in res.lines:               # TLC may evaluate the exporting invariant more than once per initial state
+        k = json.dumps(ln, sort_keys=True)
+        if k not in seen:
+            seen.add(k)
+            scs.append(ln)
+    return scs, res
+
+
 def export_scenarios(n: int, family: str, foreign=("F",), ownsets="NoOwn", timeout: int = 600) -> Tuple[List[Dict[str, Any]], Any]:
     """the scenario family of a configuration, as TLC enumerates it in Init (one line per initial state)"""
     res = tlc.run("AsyncIOSchedMC", _cfg(n, family, foreign=foreign, ownsets=ownsets, next_="NoNext", invariants=["ExportScn"]), workers=1,
@@ -656,7 +682,7 @@ def design_run(n: int, family: str, variants=("own",), foreign=("F",), workers: 
                constraints=["ControlPrune"] if controls else [], postcondition="ControlsRefuted" if controls else None)
     res = tlc.run("AsyncIOSchedMC", cfg, workers=1 if controls else workers, timeout=timeout, coverage=coverage, allow_violation=True,
                   simulate=simulate, depth=depth, seed=seed)
-    if controls and ("NOT REFUTED" in res.raw or res.violated == "postcondition"):
+    if controls and res.ok and ("NOT REFUTED" in res.raw or res.violated == "postcondition"):
         res.ok, res.violated = False, "ControlsRefuted"
     return res
 
@@ -699,8 +725,30 @@ def validate(batch: List[Any], timeout: int = 900):
     return rejected, only_late, ress
 
 
-def conc_check(ck, jobs: List[Tuple], pool, label: str) -> Dict[str, Any]:
-    """jobs for explore_scenario; returns counters. Failures go through ck.fail."""
+_ONLYCALLER = re.compile(r'<<"ONLYCALLER", (\d+)>>')
+_ONLYOWN = re.compile(r'<<"ONLYOWN", (\d+)>>')
+
+
+def mech_validate(entries: List[Dict[str, Any]], timeout: int = 900):
+    """Design-level matching (AsyncIOSchedMech.tla).  entries: [{"scn", "own", "ev"}].
+    -> (unexplained [(index, events explained)], indices explained only by the pinned decision, indices explained only by the
+        intended decision, TLC results)"""
+    consts = dict(Items={1, 2}, Foreign={"F", "G"}, Unit=UNIT)
+    rejected, ress = tracecheck.validate("AsyncIOSchedMech", consts, entries, invariants=[], timeout=timeout, chunk=CHUNK)
+    only_caller, only_own = set(), set()
+    for k, r in enumerate(ress):
+        for m in _ONLYCALLER.finditer(r.raw):
+            only_caller.add(k * CHUNK + int(m.group(1)) - 1)
+        for m in _ONLYOWN.finditer(r.raw):
+            only_own.add(k * CHUNK + int(m.group(1)) - 1)
+    return rejected, only_caller, only_own, ress
+
+
+def conc_check(ck, jobs: List[Tuple], pool, label: str, mech_sample: Optional[int] = None) -> Dict[str, Any]:
+    """jobs for explore_scenario; returns counters. Property-level failures go through ck.fail, design-level mismatches
+    through ck.drift.  mech_sample: at most that many traces are also matched against the mechanism (None = all)."""
+    import random
+    from concurrent.futures import ThreadPoolExecutor
     results = pool.map(explore_scenario, jobs, chunksize=1) if pool is not None else [explore_scenario(j) for j in jobs]
     batch: List[Any] = []
     meta: List[Tuple[int, int, List[int]]] = []
@@ -719,18 +767,45 @@ def conc_check(ck, jobs: List[Tuple], pool, label: str) -> Dict[str, Any]:
     tot["scenarios"] = len(jobs)
     tot["distinct_traces"] = len(batch)
     tot["distinct_traces_with_dispose"] = sum(1 for tr in batch if any(e["e"] == "dc" for e in tr))
-    rejected, only_late, ress = validate(batch)
-    for r in ress:
-        ck.add_tlc(r, f"trace validation {label} ({len(batch)} distinct traces)")
-    tot["rejected_traces"] = len(rejected)
-    tot["rejected_executions"] = sum(meta[i][1] for (i, _) in rejected)
-    for (i, upto) in rejected:
-        j, n, dec = meta[i]
-        sc, form, wide = results[j]["scenario"], results[j]["form"], results[j]["wide"]
-        rec = {"engine": "asyncio-conc"}
-        rec.update(label_of(batch[i], upto, sc, i in only_late))
-        rec.update(scenario=sc, form=form, wide=wide, trace=batch[i], rejected_at=upto, schedules_with_this_trace=n, decisions=dec)
-        ck.fail(rec)
+    # design-level matching (drift only) runs beside the property-level validation
+    plain = [i for i, tr in enumerate(batch) if all(e["e"] in ("sc", "sr", "dc", "dr", "st", "ls", "lx", "id") for e in tr)
+             and len(results[meta[i][0]]["scenario"]["scn"]) == 2]
+    if mech_sample is not None and len(plain) > mech_sample:
+        # prefer the traces in which a foreign thread disposes while the loop runs
+        rnd = random.Random(ck.seed)
+        hot = [i for i in plain if any(e["e"] == "dc" and e["th"] != "L" for e in batch[i])]
+        rnd.shuffle(hot)
+        rest = [i for i in plain if i not in set(hot)]
+        rnd.shuffle(rest)
+        plain = (hot[: (mech_sample * 2) // 3] + rest)[:mech_sample]
+    entries = [{"scn": results[meta[i][0]]["scenario"]["scn"], "own": results[meta[i][0]]["scenario"].get("own", []), "ev": batch[i]} for i in plain]
+    with ThreadPoolExecutor(max_workers=1) as tp:
+        f_mech = tp.submit(mech_validate, entries) if entries else None
+        rejected, only_late, ress = validate(batch)
+        for r in ress:
+            ck.add_tlc(r, f"trace validation {label} ({len(batch)} distinct traces)")
+        tot["rejected_traces"] = len(rejected)
+        tot["rejected_executions"] = sum(meta[i][1] for (i, _) in rejected)
+        for (i, upto) in rejected:
+            j, n, dec = meta[i]
+            sc, form, wide = results[j]["scenario"], results[j]["form"], results[j]["wide"]
+            rec = {"engine": "asyncio-conc"}
+            rec.update(label_of(batch[i], upto, sc, i in only_late))
+            rec.update(scenario=sc, form=form, wide=wide, trace=batch[i], rejected_at=upto, schedules_with_this_trace=n, decisions=dec)
+            ck.fail(rec)
+        if f_mech is not None:
+            unexplained, only_caller, only_own, mress = f_mech.result()
+            for r in mress:
+                ck.add_tlc(r, f"design-level matching {label} ({len(entries)} traces, silent mechanism steps inferred)")
+            tot["mech_traces_matched"] = len(entries)
+            tot["mech_unexplained"] = len(unexplained)
+            tot["mech_explained_only_by_pinned_decision"] = len(only_caller)
+            tot["mech_explained_only_by_intended_decision"] = len(only_own)
+            for (k, upto) in unexplained:
+                tr = batch[plain[k]]
+                sc = results[meta[plain[k]][0]]["scenario"]
+                ck.drift(f"mechanism model explains only {upto} of {len(tr)} events of a run of scenario {json.dumps(sc['scn'])} own={sc.get('own')}: "
+                         f"{' '.join(e['e'] + e['th'] + str(e['t']) + (':' + str(e['i']) if 'i' in e else '') for e in tr)}")
     for j in (0, len(results) // 2, len(results) - 1):
         if results and results[j]["traces"]:
             ck.sample({"scenario": results[j]["scenario"], "trace": results[j]["traces"][-1][0]})
